@@ -221,6 +221,34 @@ theorem parse_render_false_trailing_newline :
   rw [fromStringF_noframes (e1 := "E: a".toList) (E := []) (by decide +kernel) (by decide +kernel)]
   intro h; have := Except.ok.inj h; revert this; decide +kernel
 
+/-- ... and that is all that is lost there: for a non-empty message, a final newline of the message is dropped and
+    every other field is recovered (the exact extent of known finding C16-message-trailing-newline) -/
+theorem parse_render_trailing_newline_exact (pe : PE) (h : WFpe pe = true) (hm : pe.msg ≠ []) :
+    fromString (toString ⟨pe.frames, pe.etype, pe.msg ++ ['\n']⟩) = .ok pe := by
+  have key : toString ⟨pe.frames, pe.etype, pe.msg ++ ['\n']⟩ = toString pe ++ ['\n'] := by
+    have hj : ∀ (ls : List Str) (l : Str), joinNL (ls ++ [l ++ ['\n']]) = joinNL (ls ++ [l]) ++ ['\n'] := by
+      intro ls l
+      induction ls with
+      | nil => simp [joinNL]
+      | cons a as ih =>
+        cases as with
+        | nil => simp [joinNL]
+        | cons b bs =>
+          simp only [List.cons_append, joinNL] at ih ⊢
+          rw [ih]; simp
+    have he : excLine pe.etype (pe.msg ++ ['\n']) = excLine pe.etype pe.msg ++ ['\n'] := by
+      simp [excLine, hm, List.append_assoc]
+    unfold toString toLines
+    simp only
+    rw [he]
+    have := hj (header :: pe.frames.flatMap frameLines) (excLine pe.etype pe.msg)
+    simpa using this
+  rw [key, toString_eq_toStringA, parse_render_final_newline _ _ _ (WFtextA_noAnchors pe h)]
+  cases pe
+  simp [noAnchors, Function.comp_def]
+
+example : WFpe ⟨exFrames.map (·.1), "E".toList, "a".toList⟩ = true ∧ "a".toList ≠ [] := by decide +kernel
+
 /-- a message containing another str.splitlines separator is not recovered -/
 theorem parse_render_false_separator :
     ∃ pe : PE, pe.msg.getLast? ≠ some '\n' ∧ fromString (toString pe) ≠ .ok pe := by
@@ -356,6 +384,17 @@ theorem live_frames_eq_extract_tb (tb : List TbEntry) (limit : Option Nat) (sys 
     (h : ∀ e ∈ tb, LookOK e.look = true) :
     fromTraceback (tb.map walkB) (resolveLimit limit sys) = stdExtract (tb.map walkS) (resolveLimit limit sys) := by
   rw [map_walk_eq tb h]; rfl
+
+/-- `ExceptionInfo.to_dict()` lists, per entry, the file, line number and function of extract_tb's FrameSummary and
+    a `line` that is FrameSummary.line once stripped (to_dict keeps the indentation: rstrip only) -/
+theorem dict_frames_eq_extract_tb (tb : List TbEntry) (limit : Option Nat) (sys : Option Int)
+    (h : ∀ e ∈ tb, LookOK e.look = true) :
+    (dictFrames (fromTraceback (tb.map walkB) (resolveLimit limit sys))).map
+        (fun d => (d.1, d.2.1, d.2.2.1, strip d.2.2.2))
+      = (stdExtract (tb.map walkS) (resolveLimit limit sys)).map
+        (fun c => (c.path, c.lineno, c.func, strip c.line)) := by
+  rw [live_frames_eq_extract_tb tb limit sys h]
+  simp [dictFrames, List.map_map, Function.comp_def, strip_rstrip]
 
 /-- without a limit every traceback entry is listed, with its own file, line number and function -
     also entries that refer to a frame already listed -/
